@@ -4,7 +4,7 @@ CONSTANTS
   CrossKinds = {"f64", "u8", "string"}
   N = 3
   ULen = 3
-  ELen = 3
+  ELen = 2
   BLen = 2
   XLen = 1
   TwiceMax = 2
